@@ -5,7 +5,7 @@
   every write happens at an index `< src` (theorem `C13.bounds`), the bytes at `≥ src` are
   still the original ones when they are read, so the in-place algorithm equals this
   out-of-place one: `rest` is `data[src..]`, `out` is `data[..dst]`, `st` is the component
-  stack (a list of `dst` values, most recent first), `cap` its capacity (60 in the source).
+  stack (a list of `dst` values, most recent first), its first 60 entries are on the machine stack, deeper ones spill to the heap.
 
   `inComp = true` models the inner "copy one path component, including trailing '/'" step,
   one byte at a time; `inComp = false` is the head of the `while` loop.
@@ -82,22 +82,22 @@ theorem classify_up_len {c r sep r'} (h : classify c r = .up sep r') : r'.length
           · cases h
     · cases h
 
-def go (cap : Nat) (rest : Bytes) (inComp : Bool) (out : Bytes) (st : List Nat) : Res Bytes :=
+def go (rest : Bytes) (inComp : Bool) (out : Bytes) (st : List Nat) : Res Bytes :=
   match rest with
   | [] => .ok (finish out)
   | c :: r =>
-    if inComp then go cap r (!isSep c) (out ++ [c]) st
+    if inComp then go r (!isSep c) (out ++ [c]) st
     else
       match h : classify c r with
-      | .skip r' => go cap r' false out st
+      | .skip r' => go r' false out st
       | .stop => .ok (finish out)
       | .up sep r' =>
         let p := dotdot out st sep
-        go cap r' false p.1 p.2
+        go r' false p.1 p.2
       | .comp =>
-        -- `components.push(dst)`, then copy the component
-        if st.length ≥ cap then .panic "too many path components"
-        else go cap r true (out ++ [c]) (out.length :: st)
+        -- `components.push(dst)` (beyond 60 entries the stack spills to the heap: repair of
+        -- finding F4), then copy the component
+        go r true (out ++ [c]) (out.length :: st)
 termination_by rest.length
 decreasing_by
   · simp
@@ -106,15 +106,10 @@ decreasing_by
   · simp
 
 /-- `canonicalize_path`.  `assert!(!path.is_empty())` is the first line. -/
-def canonCap (cap : Nat) (s : Bytes) : Res Bytes :=
+def canon (s : Bytes) : Res Bytes :=
   match s with
   | [] => .panic "assertion failed: !path.is_empty()"
-  | c :: r => if isSep c then go cap r false [c] [] else go cap s false [] []
-
-/-- Component-stack capacity in `canon.rs` (`StackStack::<usize, 60>`). -/
-def CAP : Nat := 60
-
-def canon (s : Bytes) : Res Bytes := canonCap CAP s
+  | c :: r => if isSep c then go r false [c] [] else go s false [] []
 
 /-- Number of path components (maximal runs of non-separator bytes). -/
 def numComps : Bytes → Bool → Nat
